@@ -325,14 +325,15 @@ class RouteController:
             interfaces: list of interfaces
 
         Attributes:
-            _unresolved_arp_queries_cache (dict[str, RouteEntry]):
-                A cache to store unresolved ARP queries.
+            _unresolved_arp_queries_cache (dict[str, List[RouteEntry]]):
+                A cache to store unresolved ARP queries: every route
+                waiting for the MAC address of a next hop.
             _neighbor_cache (dict[str, RouteEntry]):
                 A cache to keep track of entries add in Bess.
             _module_gate_count_cache (Dict[str, int]):
                 A cache for counting module gate occurrences.
         """
-        self._unresolved_arp_queries_cache: Dict[str, RouteEntry] = {}
+        self._unresolved_arp_queries_cache: Dict[str, List[RouteEntry]] = {}
         self._neighbor_cache: Dict[str, NeighborEntry] = {}
         self._module_gate_count_cache: Dict[str, int] = defaultdict(lambda: 0)
 
@@ -465,19 +466,20 @@ class RouteController:
     def add_unresolved_new_neighbor(self, netlink_message: dict) -> None:
         """Handle new neighbor event.
 
-        It will add the neighbor if it was in the unresolved ARP queries cache.
+        It will add every route that was waiting for the neighbor in the
+        unresolved ARP queries cache.
 
         Args:
             netlink_message (dict): The netlink message.
         """
         attr_dict = dict(netlink_message["attrs"])
-        route_entry = self._unresolved_arp_queries_cache.get(
-            attr_dict[KEY_NETWORK_LAYER_DEST_ADDR]
-        )
+        next_hop_ip = attr_dict[KEY_NETWORK_LAYER_DEST_ADDR]
+        route_entries = self._unresolved_arp_queries_cache.get(next_hop_ip)
         gateway_mac = attr_dict[KEY_LINK_LAYER_ADDRESS]
-        if route_entry:
-            self._add_neighbor(route_entry, gateway_mac)
-            del self._unresolved_arp_queries_cache[route_entry.next_hop_ip]
+        if route_entries:
+            for route_entry in route_entries:
+                self._add_neighbor(route_entry, gateway_mac)
+            del self._unresolved_arp_queries_cache[next_hop_ip]
 
     def _create_module_links(
         self,
@@ -519,7 +521,11 @@ class RouteController:
             return
 
     def delete_route_entry(self, route_entry: RouteEntry) -> None:
-        """Deletes a route entry from BESS and the neighbor cache."""
+        """Deletes a route entry from BESS and the neighbor cache.
+
+        A route still waiting for its next hop to be resolved is removed
+        from the unresolved ARP queries cache.
+        """
         next_hop = self._neighbor_cache.get(route_entry.next_hop_ip)
 
         if next_hop:
@@ -560,6 +566,17 @@ class RouteController:
                 self._neighbor_cache[route_entry.next_hop_ip] = next_hop
         else:
             logger.info("Neighbor %s does not exist", route_entry.next_hop_ip)
+            # The route may still be waiting for the MAC address of its
+            # next hop: it must not be installed once the neighbor resolves.
+            pending = self._unresolved_arp_queries_cache.get(
+                route_entry.next_hop_ip, []
+            )
+            if route_entry in pending:
+                pending.remove(route_entry)
+                if not pending:
+                    del self._unresolved_arp_queries_cache[
+                        route_entry.next_hop_ip
+                    ]
 
     def _ping_missing_entries(self):
         """Pings missing entries every 10 seconds.
@@ -581,12 +598,17 @@ class RouteController:
 
     def _probe_addr(self, route_entry: RouteEntry) -> None:
         """Probes the MAC address of a neighbor.
-        Pings the neighbor to trigger the update of the ARP table.
+        Adds the route to the routes waiting for that neighbor and
+        pings the neighbor to trigger the update of the ARP table.
 
         Args:
             route_entry (NeighborEntry): The neighbor entry.
         """
-        self._unresolved_arp_queries_cache[route_entry.next_hop_ip] = route_entry
+        pending = self._unresolved_arp_queries_cache.setdefault(
+            route_entry.next_hop_ip, []
+        )
+        if route_entry not in pending:
+            pending.append(route_entry)
         logger.info("Adding entry %s in arp table by pinging", route_entry)
         send_ping(route_entry.next_hop_ip)
 
